@@ -134,6 +134,30 @@ def run_model(ctx, model_exe, cases, tag, timeout=900):
     return rc, conc_check.parse_logs(out)
 
 
+def suffix_cases(c, d, ilog):
+    """schedules sharing the prefix of case c up to its first divergence d, followed by 'thread x runs n steps, then
+    thread y runs m steps, then round robin'"""
+    if ilog is None or d.get("index", -1) < 0:
+        return []
+    nth = len(c["threads"])
+    steps = sum(1 for l in ilog["lines"][:d["index"]] if l.split(" ")[1] != "ev")
+    pre = [(c["sched"][i] if i < len(c["sched"]) else i % nth) for i in range(steps)]
+    out = []
+    for back in (0, 3):
+        p = pre[:max(0, len(pre) - back)]
+        for x in range(nth):
+            for y in range(nth):
+                if x == y:
+                    continue
+                for n in list(range(0, 30)) + list(range(30, 200, 7)):
+                    for m in (2, 5, 12):
+                        cc = dict(c)
+                        cc["id"] = "%s_sx%d_%d_%d_%d_%d" % (c["id"], back, x, y, n, m)
+                        cc["sched"] = p + [x] * n + [y] * m + [x] * 40 + [y] * 40
+                        out.append(cc)
+    return out
+
+
 def correspond(cases, mlogs, ilogs):
     """-> (number compared, number agreeing, impl steps compared, first divergence (case, d) or None)"""
     n = ok = steps = 0; first = None
@@ -165,7 +189,17 @@ def ops_for(kind, v):
 
 
 def gen_sched(rng, nthreads, approx_len):
-    kind = rng.below(4)
+    kind = rng.below(5)
+    if kind == 4:      # long stalls: x runs a steps, y runs b steps alone (e.g. a whole resize), x continues, ...
+        s = []
+        x = rng.below(nthreads)
+        for _ in range(2 + rng.below(4)):
+            s += [x] * rng.below(60)
+            y = (x + 1 + rng.below(nthreads - 1)) % nthreads
+            s += [y] * rng.below(220)
+            s += [x] * rng.below(12)
+            x = y
+        return s
     if kind == 0:      # uniform
         return [rng.below(nthreads) for _ in range(approx_len // 2 + rng.below(approx_len))]
     if kind == 1:      # bursts: a thread stalls inside its critical section while another one runs
@@ -269,12 +303,12 @@ def history_of(kind, lines, finals, nthreads):
             elif c in (8, 12):
                 out.append("inv %s contains %d" % (tid, k))
             else:
-                errs.append("unknown op code %d" % c)
+                errs.append(("unknown op code", str(c)))
         elif t[2] == "ret":
             c, r1, r2 = int(t[3]), int(t[4]), int(t[5])
             inv = pending.pop(tid, None)
             if inv is None or inv[0] != c:
-                errs.append("response without invocation: " + l); continue
+                errs.append(("response without invocation", l)); continue
             k = inv[1]
             if c == 4:
                 # unlink(item) succeeds iff the item stored under the key is the caller's own: a success is an erase;
@@ -287,10 +321,10 @@ def history_of(kind, lines, finals, nthreads):
             elif c in (2, 6, 13):
                 out.append("res %s %s" % (tid, b(r1)))
                 if r2 != (1 if r1 else 0):
-                    errs.append("functor called %d times by op %d returning %d" % (r2, c, r1))
+                    errs.append(("functor call count does not match the result of the operation", "called %d times by op %d returning %d" % (r2, c, r1)))
             elif c == 3:
                 if r2 >= 50:
-                    errs.append("update functor protocol broken (code %d)" % r2); r2 = 0
+                    errs.append(("update functor protocol broken", "code %d" % r2)); r2 = 0
                 out.append("res %s pair %s %s" % (tid, b(r1), b(r2)))
             elif c in (7, 11):
                 if is_map:
@@ -298,7 +332,7 @@ def history_of(kind, lines, finals, nthreads):
                 else:
                     out.append("res %s %s" % (tid, b(r1)))
                     if r1 and r2 != k:
-                        errs.append("find(%d) passed an item with key %d to the functor" % (k, r2))
+                        errs.append(("find passed an item with another key to the functor", "find(%d) -> key %d" % (k, r2)))
     # the monitor: main thread, after every worker has returned
     m = str(nthreads)
     for (k, f, e1, e2, val) in finals:
@@ -374,17 +408,17 @@ def judge(ctx, kind, name, cases, logs, lin, stats, tag):
         st["ops"] += sum(len(t) for t in c["threads"])
         problems = list(errs)
         if dup:
-            problems.append("a key is present twice: the second erase of the same key by the monitor succeeded (%d keys)" % dup)
+            problems.append(("a key is present twice (the monitor erased the same key two times in a row)", "%d keys" % dup))
         if size is not None and size != sum(1 for f in finals if f[2]):
-            problems.append("item counter %d differs from the number of keys the monitor could erase (%d)" % (size, sum(1 for f in finals if f[2])))
+            problems.append(("item counter differs from the number of keys the monitor could erase", "counter %d, erased %d" % (size, sum(1 for f in finals if f[2]))))
         if size_after not in (None, 0):
-            problems.append("item counter is %d after every key was erased" % size_after)
+            problems.append(("item counter is not zero after every key was erased", "counter %d" % size_after))
         for f in finals:
             if f[1] != f[2]:
-                problems.append("monitor: contains(%d)=%d but erase(%d)=%d" % (f[0], f[1], f[0], f[2]))
+                problems.append(("monitor: contains(k) and the following erase(k) disagree", "k=%d contains=%d erase=%d" % (f[0], f[1], f[2])))
         if problems:
             nviol += 1
-            ctx.violation("C16 monitor on the real container: " + problems[0],
+            ctx.violation("C16 monitor on the real container: " + problems[0][0],
                           {"case": c, "variant": vname, "problems": problems, "history": h, "finals": finals, "size": size},
                           signature="C16-monitor-" + vname)
         hists.append(h); idx.append(c)
@@ -474,8 +508,11 @@ def run(ctx):
         cs["compared"] += n; cs["agree"] += ok; cs["impl_steps_compared"] += steps
         if first is not None and nviol == 0:
             c, d = first
-            # the correspondence broke: search for a concrete failure of the property on the real code, more seeds
-            more = gen_cases(ctx.rng.fork(), name, 6 * per_exe, "s")
+            # the correspondence broke: search for a concrete failure of the property on the real code.
+            # (1) directed: keep the program and the schedule up to the first divergence (the window the changed code
+            #     opened), then let one thread run n steps, another one m steps, for many n, m;
+            # (2) more seeds.
+            more = suffix_cases(c, d, results[name][1].get(c["id"])) + gen_cases(ctx.rng.fork(), name, 4 * per_exe, "s")
             rc, lg2 = run_impl(ctx, exes[name], more, "search_" + name)
             found = judge(ctx, EXES[name][2], name, more, lg2, lin, {}, "search_" + name)
             if not found:
